@@ -98,6 +98,21 @@ theorem tryLoop_succ (s0 : LoopSt M F α) (rem i k : Nat) (hik : i ≤ k) (hk : 
     · rw [if_pos (hfail i (Nat.le_refl _) (by omega))]
       exact ih (i + 1) (by omega) (by omega) (fun j h1 h2 => hfail j (by omega) h2)
 
+/-- If the loop returns from inside, every `info` of the state it returns is 0 — whatever the history. -/
+theorem tryLoop_true_anyInfo (rem i : Nat) (s : LoopSt M F α) (h : (tryLoop ops base jitter rem i s).1 = true) :
+    anyInfo (tryLoop ops base jitter rem i s).2.2.st = false := by
+  induction rem generalizing i s with
+  | zero => simp [tryLoop] at h
+  | succ rem ih =>
+    unfold tryLoop at h ⊢
+    simp only at h ⊢
+    split
+    · rename_i hc
+      rw [if_pos hc] at h
+      exact ih _ _ h
+    · rename_i hc
+      simpa using hc
+
 end loop
 
 section member
@@ -287,7 +302,7 @@ theorem core_of_loop (ht : env.traceMode = false) (hany : anyInfo (A.map (initMe
        if r.1 then
          { result := .ok (factors s.st), calls := s.calls, warns := s.warns, work := work, input := input, outBuf := ob (factors s.st) }
        else
-         { result := .error (if r.2.1 = 0 then .unboundLocalError else .notPSDError),
+         { result := .error (if r.2.1 = 0 && !c.jitterNewBound then .unboundLocalError else .notPSDError),
            calls := s.calls, warns := s.warns, work := work, input := input, outBuf := ob (factors s.st) }) := by
   unfold psdSafeCholeskyCore
   simp only [ht, hany, hnan, Bool.not_true, Bool.or_self, Bool.false_eq_true, if_false]
